@@ -272,3 +272,21 @@ package dotgit
 //gvc:  requires nn: d != nil
 //gvc:  ensures hooked: err == nil ==> pw != nil && pw.saved != nil
 //gvc:end
+
+// openAndLockPackedRefs (C16: a reference being packed is never lost). Every
+// writer of packed-refs replaces the file by rename, so whoever waited for the
+// flock holds a lock on an inode that is no longer the file of that name. The
+// handle is returned only after a modification-time comparison made after the
+// lock, and both times are those of the NAME packed-refs, looked up again at
+// that moment -- never those of the handle, which a rename does not touch.
+//gvc:func (*DotGit).openAndLockPackedRefs
+//gvc:  props C16
+//gvc:  theory int
+//gvc:  opt coarse
+//gvc:  opt frame args
+//gvc:  loop 1 invariant paired: calls("ModTime") == 2 * calls("Equal")
+//gvc:  sink ModTime requires byname: recv.#byname && recv.#ofname == strid(packedRefsPath)
+//gvc:  sink Lock requires between: calls("ModTime") == 2 * calls("Equal") + 1
+//gvc:  sink Equal requires both: calls("ModTime") == 2 * calls("Equal") + 2
+//gvc:  ensures relooked: pr != nil ==> calls("Equal") >= 1 && calls("ModTime") >= 2
+//gvc:end
